@@ -973,6 +973,18 @@ def _isclose(a: Any, b: Any, *, rel_tol: Any = 1e-09, abs_tol: Any = 0.0) -> Any
     return SBool(z3.Or(ta == tb, diff <= ab(tr * tb), diff <= ab(tr * ta), diff <= tt))
 
 
+def _isqrt(n: Any) -> Any:
+    """math.isqrt of a symbolic int: the r >= 0 with r*r <= n < (r+1)*(r+1); ValueError below zero."""
+    if not isinstance(n, SInt):
+        raise TypeError(f"'{type(n).__name__}' object cannot be interpreted as an integer")
+    c = ctx()
+    if c.decide(n.t < 0):
+        raise ValueError("isqrt() argument must be nonnegative")
+    r = c.fresh("isqrt", "int")
+    c.axiom(z3.And(r >= 0, r * r <= n.t, (r + 1) * (r + 1) > n.t))
+    return SInt(r)
+
+
 def _copysign(x: Any, y: Any) -> Any:
     """math.copysign returns a float; the sign of a zero y is taken as positive (proxies are reals)."""
     tx = real(term(x)) if is_sym(x) else q(x)
@@ -1000,6 +1012,7 @@ class MathShim:
         self.floor = lambda x: x.__floor__() if is_sym(x) else _math.floor(x)
         self.ceil = lambda x: x.__ceil__() if is_sym(x) else _math.ceil(x)
         self.isclose = _isclose
+        self.isqrt = lambda n: _isqrt(n) if is_sym(n) else _math.isqrt(n)
         self.isfinite = lambda x: True if is_sym(x) else _math.isfinite(x)   # proxies range over the reals
         self.isnan = lambda x: False if is_sym(x) else _math.isnan(x)
         self.isinf = lambda x: False if is_sym(x) else _math.isinf(x)
